@@ -37,6 +37,7 @@ struct World {
     root: PathBuf,
     dim: usize,
     cap: usize,
+    sim: String,
     snap: u64,
     tenants: Vec<Tenant>,
     grpc_port: u16,
@@ -97,7 +98,7 @@ impl World {
         std::fs::write(&keys, s).unwrap();
         let cfg = format!(
             "server:\n  host: 127.0.0.1\n  port: {gp}\n  http_port: {hp}\n  http_host: 127.0.0.1\n\
-             cache:\n  capacity: {cap}\n  enable_training_task: false\n  query_cache_capacity: 16\n  min_training_samples: 1\n\
+             cache:\n  capacity: {cap}\n  enable_training_task: false\n  query_cache_capacity: 16\n  query_cache_similarity_threshold: {sim}\n  min_training_samples: 1\n\
              hnsw:\n  max_elements: 20000\n  dimension: {dim}\n  distance: euclidean\n  ef_search: 200\n\
              persistence:\n  data_dir: {data}\n  fsync_policy: data_only\n  snapshot_interval_mutations: {snap}\n  wal_flush_interval_ms: 50\n\
              logging:\n  level: error\n  file: {log}\n\
@@ -106,6 +107,7 @@ impl World {
             gp = self.grpc_port,
             hp = self.http_port,
             cap = self.cap,
+            sim = self.sim,
             dim = self.dim,
             data = self.root.join("data").display(),
             snap = self.snap,
@@ -292,6 +294,8 @@ fn step(w: &mut World, line: &str) -> String {
             let (Some(dim), Some(ts)) = (nat(&fs, "dim"), field(&fs, "tenants")) else { return bad() };
             w.dim = dim as usize;
             w.cap = nat(&fs, "cap").unwrap_or(64) as usize;
+            // 1.0 = exact hits only; the default 0.52 lets a SIMILAR query be answered from another query's entry
+            w.sim = field(&fs, "sim").unwrap_or("1.0").to_string();
             w.snap = nat(&fs, "snap").unwrap_or(1000).max(1);
             w.tenants.clear();
             for (i, t) in ts.split(',').enumerate() {
@@ -587,6 +591,7 @@ pub fn run() {
         root: root.clone(),
         dim: 4,
         cap: 64,
+        sim: "1.0".into(),
         snap: 1000,
         tenants: vec![],
         grpc_port: 0,
